@@ -1076,8 +1076,15 @@ class TrA:
             return "v_" + e[1][1], "ptr"
         return None
 
+    guard_helper = None
+
     def bterm(self, e, env):
         k = e[0]
+        if k == "call" and self.guard_helper and e[1] == self.guard_helper and len(e[2]) == 1:
+            a = self.atom(e[2][0], env)
+            if a is None or a[1] != "nat":
+                raise Refuse(f"{self.fn}: argument of `{e[1]}`")
+            return f"(!AM.needGrow A {a[0]})"     # the guard of reserve(usize): the model's rule (executed probe)
         if k == "not":
             return f"(!{self.bterm(e[1], env)})"
         if k == "bin" and e[1] in ("&&", "||"):
@@ -1364,7 +1371,24 @@ def split_reserve(toks):
     guard = toks[2:j]
     if toks[j + 1] != "{" or toks[-1] != "}":
         raise Refuse(f"{fn}: the guarded statement is not one block that ends the function")
-    inner = toks[j + 2:-1]
+    return split_block(guard, toks[j + 2:-1])
+
+
+POLICY_ALLOWED = {"if", "else", "(", ")", "{", "}", "size", "_capacity", "_begin", ".", "item", "!", "&&", "||", ">", "<", ">=", "<=",
+                  "==", "!=", "?", ":", ";", "+", "-", "&", "|", "^", "~", "*", "/", "%", "=", "|=", "+=", "-=", "&="}
+
+
+def policy_only(policy, fn):
+    for q, tok in enumerate(policy):
+        if tok not in POLICY_ALLOWED and not re.fullmatch(r"\d+|0[xX][0-9a-fA-F]+", tok):
+            raise Refuse(f"{fn}: token `{tok}` in the guard / capacity computation (only size, _capacity, _begin.item may be used)")
+        if tok in ("=", "|=", "+=", "-=", "&=") and (q == 0 or policy[q - 1] != "_capacity"):
+            raise Refuse(f"{fn}: the guard / capacity computation assigns something other than `_capacity`")
+
+
+def split_block(guard, inner):
+    """`<capacity policy> T* x = (T*)new char[…]; <rest>` -> the tokens from the allocation statement on"""
+    fn = "Array::reserve"
     depth = 0
     for k in range(len(inner)):
         if inner[k] == "{":
@@ -1386,15 +1410,27 @@ def split_reserve(toks):
             break
     if at is None:
         raise Refuse(f"{fn}: no statement `T* x = (T*)new char[…];` at the top level of the guarded block")
-    policy = guard + inner[:at]
-    allowed = {"if", "else", "(", ")", "{", "}", "size", "_capacity", "_begin", ".", "item", "!", "&&", "||", ">", "<", ">=", "<=",
-               "==", "!=", "?", ":", ";", "+", "-", "&", "|", "^", "~", "*", "/", "%", "=", "|=", "+=", "-=", "&="}
-    for q, tok in enumerate(policy):
-        if tok not in allowed and not re.fullmatch(r"\d+|0[xX][0-9a-fA-F]+", tok):
-            raise Refuse(f"{fn}: token `{tok}` in the guard / capacity computation (only size, _capacity, _begin.item may be used)")
-        if tok in ("=", "|=", "+=", "-=", "&=") and (q == 0 or policy[q - 1] != "_capacity"):
-            raise Refuse(f"{fn}: the guard / capacity computation assigns something other than `_capacity`")
+    policy_only(guard + inner[:at], fn)
     return inner[at:]
+
+
+def reserve_parts(src, toks):
+    """reserve(usize) is either `if(<guard>) { <policy> <allocation> <rest> }` or `if(!G(size)) H(size);` with the helpers
+    `bool G(usize size) const {return <guard expression>;}` and `void H(usize size) { <policy> <allocation> <rest> }`.
+    Returns (tokens from the allocation statement on, name of H or None, name of G or None)."""
+    fn = "Array::reserve"
+    if len(toks) == 13 and toks[:3] == ["if", "(", "!"] and toks[4:8] == ["(", "size", ")", ")"] and toks[9:] == ["(", "size", ")", ";"]:
+        g, hname = toks[3], toks[8]
+        mg = list(re.finditer(r"bool\s+" + g + r"\s*\(\s*usize\s+size\s*\)\s*(?:const\s*)?\{\s*return\s+([^;{}]*);\s*\}", src))
+        mh = list(re.finditer(r"void\s+" + hname + r"\s*\(\s*usize\s+size\s*\)\s*\{", src))
+        if len(mg) != 1 or len(mh) != 1:
+            raise Refuse(f"{fn}: helpers `{g}` / `{hname}` not found in the understood form")
+        guard = atokenize(mg[0].group(1))
+        body = src[mh[0].end():balanced(src, mh[0].end() - 1) - 1]
+        if "#" in body:
+            raise Refuse(f"{fn}: preprocessor directive inside `{hname}`")
+        return split_block(guard, atokenize(body)), hname, g
+    return split_reserve(toks), None, None
 
 
 AFUNCS = [
@@ -1423,6 +1459,8 @@ def generate_array(repo, out_path):
              "namespace Nstd.Generated.SeqArr", "open Nstd.Seq", "open Nstd.Seq.AM (Mem Arr P)", "open Nstd.Seq.Raw (Cells)", "",
              "variable [ArrCfg]", ""]
     summary = []
+    callees = dict(ACALLEES)
+    TrA.guard_helper = None
     for fn, lean, rx, params, ret in AFUNCS:
         body = extract(src, fn, rx)
         if "#" in body:
@@ -1430,13 +1468,17 @@ def generate_array(repo, out_path):
         toks = atokenize(body)
         header = []
         if lean == "reserve":
-            toks = split_reserve(toks)
+            toks, grow_name, guard_name = reserve_parts(src, toks)
+            callees = dict(ACALLEES)
+            if grow_name:
+                callees[(grow_name, 1)] = ("grow", ["nat"], None)
+            TrA.guard_helper = guard_name
         p = AP(toks, fn)
         stmts = p.stmts()
         if p.peek() is not None:
             raise Refuse(f"{fn}: trailing tokens")
         loops = []
-        tr = TrA(fn, lean, {n: k for n, k in params}, ret, ACALLEES, loops)
+        tr = TrA(fn, "grow" if lean == "reserve" else lean, {n: k for n, k in params}, ret, callees, loops)
         env = {n: ("ptr" if k in ("ptr", "ref", "iter") else "arr" if k == "arr" else "nat") for n, k in params}
         TrA.accessors = {}
         for acc in ("size", "capacity"):
@@ -1455,16 +1497,22 @@ def generate_array(repo, out_path):
         rty = "Option (Mem × Arr)" if ret is None else "Option (Mem × Arr × Option P)"
         if lean == "reserve":
             lines = tr.run(stmts, env, "    ", tail)
-            lines = (["  -- guard and capacity rounding: NOT translated (the model's rule; tied by the executed probe, SeqConst.lean)",
-                      "  if v_size > A.cap ∨ (A.begin.isNone ∧ v_size > 0) then",
-                      "    let A := { A with cap := (if v_size > A.cap then v_size else A.cap) ||| ArrCfg.mask }"] + lines +
-                     ["  else some (M, A)"])
+            lines = (["  -- capacity rounding: NOT translated (the model's rule; tied by the executed probe, SeqConst.lean)",
+                      "  let A := { A with cap := (if v_size > A.cap then v_size else A.cap) ||| ArrCfg.mask }"] +
+                     [l[2:] for l in lines])
         else:
             lines = tr.run(stmts, env, "  ", tail)
         parts += [f"/-! ### {fn} -/"]
         for l in loops:
             parts += l
-        parts += [f"def {lean} (fuel : Nat) (M : Mem) (A : Arr){sig} : {rty} :="] + lines + [""]
+        if lean == "reserve":
+            parts += ["/-- the part of `reserve(usize)` behind its guard (in the header: the guarded block, or a helper function) -/",
+                      f"def grow (fuel : Nat) (M : Mem) (A : Arr){sig} : {rty} :="] + lines + [""]
+            parts += ["/-- the guard is NOT translated: the model's rule `AM.needGrow` (tied by the executed probe) -/",
+                      f"def reserve (fuel : Nat) (M : Mem) (A : Arr){sig} : {rty} :=",
+                      "  if AM.needGrow A v_size then grow fuel M A v_size else some (M, A)", ""]
+        else:
+            parts += [f"def {lean} (fuel : Nat) (M : Mem) (A : Arr){sig} : {rty} :="] + lines + [""]
         summary.append(f"{fn}:{len(stmts)} stmts/{len(loops)} loop(s)")
     parts += ["end Nstd.Generated.SeqArr", ""]
     text = "\n".join(parts)
